@@ -1258,6 +1258,7 @@ func (m c07) Run(c *fw.Ctx) {
 	s.seeded()
 	s.scaling()
 	s.indents()
+	s.tails()
 
 	keys := make([]string, 0, len(s.slow))
 	for k := range s.slow {
@@ -1336,6 +1337,19 @@ func (s *c07State) scaling() {
 		{"nesting depth of complement (location string)", func(n int) string {
 			return strings.Repeat("complement(", n) + "1..5" + strings.Repeat(")", n)
 		}, 125, "location"},
+		{"parts of a join nested in a join (location string)", func(n int) string { return "join(" + parts("join(", ",", ")", n) + ",999999999)" }, 2000, "location"},
+		{"parts of a join nested in a join on the lines of one feature", func(n int) string {
+			var b strings.Builder
+			b.WriteString(fmt.Sprintf(head, 4) + "FEATURES             Location/Qualifiers\n     gene            join(join(")
+			for i := 0; i < n; i++ {
+				if i > 0 {
+					b.WriteString(",\n                     ")
+				}
+				fmt.Fprintf(&b, "%d..%d", 10*i+1, 10*i+5)
+			}
+			b.WriteString("),999999999)\n                     /note=\"x\"\nORIGIN      \n        1 acgt\n//\n")
+			return b.String()
+		}, 500, ""},
 		{"parts of a join (locator string)", func(n int) string { return parts("join(", ",", ")", n) }, 500, "locator"},
 		{"parts of a join on the lines of one feature", func(n int) string {
 			var b strings.Builder
@@ -1814,6 +1828,22 @@ func (s *c07State) extremes() {
 			str("scan", "contig-only record, CONTIG line: "+cl[0]+" eol="+fmt.Sprintf("%q", eol), "contig-damaged", rec)
 		}
 	}
+	// a location of every shape wherever a header line carries one: the REGION
+	// window of the ACCESSION line, the CONTIG line, a REFERENCE's base range.
+	for li, loc := range []string{"5..20", "<5..>20", "5", "5^6", "5.20", "complement(5..20)", "complement(5)", "complement(5^6)", "join(1..5,11..20)", "order(1..5,11..20)",
+		"complement(join(1..5,11..20))", "complement(order(1..5,11..20))", "join(complement(11..20),complement(1..5))", "join(1..5,complement(11..20))", "complement(complement(5..20))",
+		"join(5..20)", "join()", "complement()", "5..", "..20", "20..5", "0..0", "-5..20", "99999999999999999999..5", "join(1..5,join(7..9,11..20))", "one-of(5,7)..20", "J00194.1:5..20"} {
+		for _, eol := range []string{"\n", "\r\n"} {
+			rec := "LOCUS       RGN                       30 bp    DNA     linear   SYN 01-JAN-2020" + eol + "DEFINITION  window." + eol + "ACCESSION   RGN REGION: " + loc + eol +
+				"VERSION     RGN.1" + eol + "ORIGIN      " + eol + "        1 acgtacgtac gtacgtacgt acgtacgtac" + eol + "//" + eol
+			str("scan", fmt.Sprintf("ACCESSION line with REGION: %s eol=%q", loc, eol), "header-location", rec)
+			if li < 16 {
+				ref := "LOCUS       RGN                       30 bp    DNA     linear   SYN 01-JAN-2020" + eol + "DEFINITION  window." + eol + "REFERENCE   1  (bases " + loc + ")" + eol + "  AUTHORS   A,B." + eol +
+					"ORIGIN      " + eol + "        1 acgtacgtac gtacgtacgt acgtacgtac" + eol + "//" + eol
+				str("scan", fmt.Sprintf("REFERENCE line with (bases %s) eol=%q", loc, eol), "header-location", ref)
+			}
+		}
+	}
 	// streams
 	str("scan", "32768 empty FASTA records", "wide-list", strings.Repeat(">\n", c07MaxInput/2))
 	str("scan", "64 KiB of >", "wide-list", strings.Repeat(">", c07MaxInput))
@@ -2053,6 +2083,87 @@ func (s *c07State) indents() {
 						if err == nil {
 							c.Violate("short-indent-accepted:"+body[:j], enc, "an error (the field is shorter than its indent)", fmt.Sprintf("%d records read, no error", n))
 						}
+					}
+				}
+			}
+		}
+	}
+}
+
+// tails: a stream that ends inside a record. One or two intact records are
+// followed by a strict prefix of another one (cut at every line start and in
+// the middle of every line of the header, and at sampled offsets of the rest).
+// The prefix holds bytes other than white space, so it is a truncated record:
+// the scan must end in an error, or - when the cut leaves a whole record, e.g.
+// only the final line end is missing - yield it. Reading the intact records
+// and then stopping without a word drops the truncated one silently.
+func (s *c07State) tails() {
+	c := s.c
+	var names []string
+	for n := range s.corpus {
+		names = append(names, n)
+	}
+	sort.Strings(names)
+	var gbs []string
+	for _, n := range names {
+		if t := string(s.corpus[n]); strings.HasPrefix(t, "LOCUS") && len(t) < 9000 {
+			gbs = append(gbs, strings.ReplaceAll(t, "\r\n", "\n"))
+		}
+	}
+	r := c.SubRng("c07-tails")
+	for i := 0; i < 3; i++ {
+		gbs = append(gbs, gen.RandGenBank(r, gen.GBOpt{MaxLen: 90, MaxFeatures: 3}, "f").String())
+	}
+	fasta := ">one\nacgtacgt\n"
+	for ti, rec := range gbs {
+		var cuts []int
+		pos := 0
+		for _, l := range strings.SplitAfter(rec, "\n") {
+			if pos > 0 {
+				cuts = append(cuts, pos)
+			}
+			if len(l) > 3 {
+				cuts = append(cuts, pos+1, pos+len(l)/2, pos+len(l)-1)
+			}
+			pos += len(l)
+		}
+		for _, k := range cuts {
+			if k <= 0 || k >= len(rec) {
+				continue
+			}
+			tail := rec[:k]
+			if strings.TrimSpace(tail) == "" {
+				continue
+			}
+			for hi, headText := range []string{rec, rec + rec, fasta} {
+				if hi == 2 && k%5 != 0 {
+					continue
+				}
+				for _, eol := range []string{"\n", "\r\n"} {
+					if !c.NextShared() {
+						continue
+					}
+					whole := 1
+					if hi == 1 {
+						whole = 2
+					}
+					in := strings.ReplaceAll(headText+tail, "\n", eol)
+					enc := fmt.Sprintf("truncated last record: %d intact record(s) (kind %d) then the first %d bytes of record %d, eol %q; the tail ends in %q", whole, hi, k, ti, eol, clipS(tail[max(0, len(tail)-40):], 60))
+					c.Begin(enc)
+					c.Count(fmt.Sprintf("tail|%d|%d|%d|%q", ti, k, hi, eol), true)
+					c.Bucket("truncated-last-record")
+					p, val, site, n, _, err := c07ScanOnce(in)
+					if p {
+						c.ViolateX("truncated-last-record:"+panicClass(site, val), enc, "an error", fmt.Sprint(val), "", nil)
+						continue
+					}
+					if hi == 2 {
+						// after FASTA records everything up to the next '>' is
+						// residue text: nothing to demand.
+						continue
+					}
+					if err == nil && n <= whole {
+						c.Violate("truncated-last-record-dropped", enc, "an error (or the record, if the cut left it whole)", fmt.Sprintf("%d records read, no error", n))
 					}
 				}
 			}
